@@ -411,6 +411,8 @@ def run(ctx):
         failure_buckets=nb,
     )
     ctx.assumptions += [
+        'signatures: every failing case is reduced to a minimal failing case (any symptom); signature = symptom of that core + '
+        'the attributes it still needs; Loki\'s 30 s wall-clock REGEX-frontend timeout is switched off (load-dependent)',
         'states whose graph does not conform to the C21 reference are skipped here (they are C21 violations)',
         'the processing order is only required to be a topological order of the reference must-edges',
         'targets: only call-site names of callees are judged (module names / imported symbols are don\'t-care)',
